@@ -49,18 +49,22 @@ type MoveCommand struct {
 }
 
 func (cmd *MoveCommand) Wait() (*MoveData, error) {
-	if err := cmd.cmd.Wait(); err != nil {
-		return nil, err
-	}
+	err := cmd.cmd.Wait()
+	// The fallback commands have already been sent: they need to be consumed
+	// even if a previous command has failed, otherwise the data the server
+	// sends for them blocks the client
 	if cmd.store != nil {
-		if err := cmd.store.Close(); err != nil {
-			return nil, err
+		if storeErr := cmd.store.Close(); err == nil {
+			err = storeErr
 		}
 	}
 	if cmd.expunge != nil {
-		if err := cmd.expunge.Close(); err != nil {
-			return nil, err
+		if expungeErr := cmd.expunge.Close(); err == nil {
+			err = expungeErr
 		}
+	}
+	if err != nil {
+		return nil, err
 	}
 	return &cmd.data, nil
 }
